@@ -772,7 +772,7 @@ note::
            #raise TypeError(msg)
         # hold on to the 'raw' cost function
         self._cost = (None, cost, ExtraArgs)
-        self._live = False
+        self.Finalize() # log any pending iteration; rewrap the cost at next Step
         return
 
     def Collapsed(self, disp=False, info=False):
